@@ -112,6 +112,20 @@ def generate(ctx):
             else:
                 ops.append([nm] + [r.choice(univ) for _ in range(r.randint(1, 4))])
         yield {'cls': r.choice(['OrderedSet', 'QuerySet']), 'level': 'abs', 'ops': ops, 'fam': 'rmadd'}
+    # D-only: falsy / None / mixed-type elements
+    rnge = ctx.rng.fork('exotic')
+    for i in range(ctx.pick(600, 8000)):
+        r = rnge.fork(i)
+        ops = []
+        for _ in range(r.randint(2, 14)):
+            nm = r.choice(['add', 'add', 'add', 'discard', 'new', 'ior', 'isub', 'iand', 'ixor', 'or', 'pop-last', 'pop-first', 'iter-rm'])
+            if nm in ('add', 'discard'):
+                ops.append([nm, r.randrange(len(EXOTIC))])
+            elif nm in ('pop-last', 'pop-first'):
+                ops.append([nm])
+            else:
+                ops.append([nm] + [r.randrange(len(EXOTIC)) for _ in range(r.randint(0, 5))])
+        yield {'cls': r.choice(['OrderedSet', 'QuerySet']), 'level': 'exotic', 'ops': ops}
     # D-only: operands whose containment test differs from what they yield (str: substring test), string elements
     pool = ['a', 'ab', 'abc', 'x', 'b', '']
     for cls in ('OrderedSet', 'QuerySet'):
@@ -168,9 +182,102 @@ def _run_str(case):
             'stats': {'fam_str': 1}, 'model_line': None}
 
 
+EXOTIC = [None, '', 0, (), 'a', 1.5, frozenset(), b'']      # pairwise unequal, several of them falsy
+
+
+def _run_exotic(case):
+    """D only: elements that are falsy / None / of mixed types; the oracle is a plain insertion-ordered list"""
+    x = _xtuml
+    cls = x.OrderedSet if case['cls'] == 'OrderedSet' else x.QuerySet
+    el = lambda i: EXOTIC[i]
+    s = cls()
+    oracle = []
+    fails = []
+    done = []
+
+    def fail(sig, what):
+        fails.append({'sig': sig, 'what': what + ' after ops %r' % (done,)})
+    for op in case['ops']:
+        nm, args = op[0], [el(i) for i in op[1:]]
+        done.append([nm] + [repr(a) for a in args])
+        try:
+            if nm == 'add':
+                s.add(args[0])
+                if args[0] not in oracle:
+                    oracle.append(args[0])
+            elif nm == 'discard':
+                s.discard(args[0])
+                oracle = [k for k in oracle if k != args[0]]
+            elif nm == 'new':
+                s = cls(list(args))
+                oracle = list(dict.fromkeys(args))
+            elif nm == 'ior':
+                s |= (cls(args) if len(done) % 2 else list(args))
+                oracle += [k for k in dict.fromkeys(args) if k not in oracle]
+            elif nm == 'isub':
+                s -= list(args)
+                oracle = [k for k in oracle if k not in args]
+            elif nm == 'iand':
+                s &= list(args)
+                oracle = [k for k in oracle if k in args]
+            elif nm == 'ixor':
+                s ^= list(args)
+                oracle = [k for k in oracle if k not in args] + [k for k in dict.fromkeys(args) if k not in oracle]
+            elif nm == 'or':
+                r = s | list(args)
+                want = oracle + [k for k in dict.fromkeys(args) if k not in oracle]
+                if list(r) != want:
+                    fail('binop-content', 'a | b gave %r, it should hold %r' % (list(r), want))
+            elif nm == 'pop-last':
+                if oracle:
+                    got = s.pop()
+                    if got != oracle[-1] or type(got) is not type(oracle[-1]):
+                        fail('pop-wrong-end', 'pop() returned %r, the last element is %r' % (got, oracle[-1]))
+                    oracle = oracle[:-1]
+            elif nm == 'pop-first':
+                if oracle:
+                    got = s.pop(last=False)
+                    if got != oracle[0] or type(got) is not type(oracle[0]):
+                        fail('pop-wrong-end', 'pop(last=False) returned %r, the first element is %r' % (got, oracle[0]))
+                    oracle = oracle[1:]
+            elif nm == 'iter-rm':
+                visited = []
+                before = list(oracle)
+                for k in s:
+                    visited.append(k)
+                    if k in args:
+                        s.discard(k)
+                if visited != before:
+                    fail('iter-remove-current', 'iteration with removal visited %r, the set held %r' % (visited, before))
+                oracle = [k for k in oracle if k not in args]
+        except Exception as e:
+            fail('raises', '%s raised %s: %s' % (nm, type(e).__name__, e))
+            break
+        items = list(s)
+        if nm == 'ixor' and sorted(map(repr, items)) == sorted(map(repr, oracle)):
+            oracle = list(items)                                   # the order after ^= is not demanded
+        fl = _first_last(s, case['cls'])
+        if items != oracle or [type(k) for k in items] != [type(k) for k in oracle]:
+            fail('content', 'the set holds %r, an insertion-ordered mathematical set holds %r' % (items, oracle))
+            break
+        if list(reversed(s)) != oracle[::-1] or len(s) != len(oracle) or [e in s for e in EXOTIC] != [e in oracle for e in EXOTIC]:
+            fail('len-membership', 'reversed %r / len %d / membership %r disagree with the content %r'
+                 % (list(reversed(s)), len(s), [e in s for e in EXOTIC], oracle))
+        if case['cls'] == 'OrderedSet' or not oracle or (oracle[0] is not None and oracle[-1] is not None):
+            # QuerySet.first / last answer None for an empty set: with None as an end element the two cannot be told apart
+            if fl != ((oracle[0], oracle[-1]) if oracle else (None, None)):
+                fail('first-last', 'first/last give %r for %r' % (fl, oracle))
+        if not (s == list(oracle)) or (s != list(oracle)) or (len(oracle) > 1 and s == list(oracle[::-1])):
+            fail('eq-spec', '== / != against lists of the same elements disagree for %r' % (oracle,))
+    return {'obs': [], 'd_fail': fails[:3], 'nontrivial': len(case['ops']) > 2, 'key': 'exotic/%r' % (sorted(case.items()),),
+            'stats': {'fam_exotic': 1}, 'model_line': None}
+
+
 def run_impl(case):
     if case.get('level') == 'str':
         return _run_str(case)
+    if case.get('level') == 'exotic':
+        return _run_exotic(case)
     cls = getattr(_xtuml, case['cls'])
     # two of a kind: other sets of the same class live beside `s` - one built (from an iterable) BEFORE it, one (empty) AFTER
     # it, one copied from it half way; whatever happens to `s` must leave them alone, and what happens to them must leave `s`
@@ -191,6 +298,20 @@ def run_impl(case):
 
     def fail(sig, what):
         fails.append({'sig': sig, 'what': what + ' after ops %s' % dumps([[Sym(o[0])] + o[1:] for o in case['ops'][:len(obs) + 1]])})
+
+    def look_inside(visited, args):
+        # re-entrancy: on every other step the loop body also READS the set it is iterating (its own nested iterations,
+        # length, membership, ends, comparison) after the removal; the reads see the set without the elements removed so
+        # far and leave the outer iteration where it was
+        if len(obs) % 2 == 0:
+            return
+        now = [k for k in oracle if not (k in args and k in visited)]
+        inner = list(s)
+        back = list(reversed(s))
+        if inner != now or back != now[::-1] or len(s) != len(now) or [k in s for k in U] != [k in now for k in U] or \
+                _first_last(s, case['cls']) != ((now[0], now[-1]) if now else (None, None)) or not (s == list(now)):
+            fail('iter-inner-view', 'inside an iteration with removal (visited so far %r) the set reads %r / reversed %r / len %d, '
+                 'it holds %r' % (visited, inner, back, len(s), now))
 
     def bystanders(step, op):
         nonlocal copy_of_s, copy_oracle, elder_oracle
@@ -412,6 +533,7 @@ def run_impl(case):
                         visited.append(x)
                         if x in args:
                             s.discard(x)
+                        look_inside(visited, args)
                 except Exception as e:
                     fail('iter-remove-raises', 'REVERSE iteration with removal of the visited element raised %s: %s after visiting %r'
                          % (type(e).__name__, e, visited))
@@ -433,6 +555,7 @@ def run_impl(case):
                         visited.append(x)
                         if x in args:
                             s.discard(x)
+                        look_inside(visited, args)
                 except Exception as e:
                     fail('iter-remove-raises', 'iteration with removal of the visited element raised %s: %s after visiting %r'
                          % (type(e).__name__, e, visited))
